@@ -68,13 +68,15 @@ theorem chain_tokens (P : BState → Nat → Prop) (hP : FrameClosed P) (rules :
       exact ⟨seg, by rw [h1, hm.miss _ _ _ _ hc hrs], h2, h3⟩
 
 /-- **C03.loop_maps_staged** — whatever the rule chain (contracts assumed), whenever a block loop
-over `[line, endLine)` returns, the tokens it added are staged inside `[line, endLine]`: their maps
-are in range, non-empty, and sibling blocks never overlap or go backwards. -/
+over `[line, endLine)` returns, the tokens it added are staged inside `[line, lineMax]`: their maps
+are in range, non-empty, and sibling blocks never overlap or go backwards.  (The bound is `lineMax`, not
+`endLine`: the last block of a nested range may legitimately end beyond it — see `RuleOK.progress`; for a
+top-level loop the two coincide.) -/
 theorem loop_maps_staged (P : BState → Nat → Prop) (hP : FrameClosed P) (rules : List BRule) (hok : ∀ r ∈ rules, RuleOK P r)
     (hmap : ∀ r ∈ rules, MapOK P r) (maxNesting : Int) (endLine : Nat) :
     ∀ (fuel line : Nat) (hasEmpty : Bool) (s s' : BState), s.lines.length = s.lineMax + 1 → endLine ≤ s.lineMax →
       P s endLine → blockLoop rules maxNesting endLine fuel line hasEmpty s = .ok s' →
-      ∃ new, s'.tokens = s.tokens ++ new ∧ Staged line endLine new := by
+      ∃ new, s'.tokens = s.tokens ++ new ∧ Staged line s.lineMax new := by
   intro fuel
   induction fuel with
   | zero =>
@@ -132,13 +134,15 @@ theorem loop_maps_staged (P : BState → Nat → Prop) (hP : FrameClosed P) (rul
                   have fin : ∀ (l' : Nat) (he : Bool) (st : BState), st.tokens = s2.tokens → st.lines.length = st.lineMax + 1 →
                       endLine ≤ st.lineMax → s2.FrameEq st → s2.line ≤ l' →
                       blockLoop rules maxNesting endLine n l' he st = .ok s' →
-                      ∃ new, s'.tokens = s.tokens ++ new ∧ Staged line endLine new := by
+                      ∃ new, s'.tokens = s.tokens ++ new ∧ Staged line s.lineMax new := by
                     intro l' he st htok hl hE hfe hle hrec
                     have hPst : P st endLine := hP _ _ _ hfe (hP _ _ _ hfr2 (hP s _ _ ⟨rfl, rfl, rfl, rfl⟩ hPs))
                     obtain ⟨new', hn1, hn2⟩ := ih l' he st s' hl hE hPst hrec
                     refine ⟨seg ++ new', ?_, ?_⟩
                     · rw [hn1, htok, hseg]; simp
-                    · exact .stage line1 s2.line seg new' hsk.1 hgt hp.2 hstage (hn2.weaken hle)
+                    · have hlm : st.lineMax = s.lineMax := by rw [hfe.2.1, hfr2.2.1]
+                      rw [hlm] at hn2
+                      exact .stage line1 s2.line seg new' hsk.1 hgt hp.2 hstage (hn2.weaken hle)
                   split at h
                   · cases h
                   · split at h
